@@ -26,7 +26,9 @@ Every Python exception in a constructor or in `run_one_step()` is an (R) violati
 """
 from __future__ import annotations
 
+import contextlib
 import hashlib
+import signal
 import traceback
 from fractions import Fraction
 
@@ -51,6 +53,31 @@ ASSUMPTIONS = [
 MAX_JOBS = 14
 
 CAP = 12  # active calls per run
+STEP_SECONDS = 240  # wall-clock budget of one constructor / run_one_step() call (unchanged tree: well below 1 s)
+
+
+class StepTimeout(Exception):
+    pass
+
+
+@contextlib.contextmanager
+def time_limit(seconds):
+    """SIGALRM-based budget for one call (main thread only; a no-op elsewhere): a call that does not
+    return is a recorded disagreement, not a hang of the check."""
+    def handler(signum, frame):
+        raise StepTimeout(f"call exceeded {seconds} s")
+
+    try:
+        old = signal.signal(signal.SIGALRM, handler)
+    except ValueError:  # not in the main thread
+        yield
+        return
+    signal.alarm(int(seconds))
+    try:
+        yield
+    finally:
+        signal.alarm(0)
+        signal.signal(signal.SIGALRM, old)
 ALG_TAG = {"PaVeBa": "paveba", "PaVeBaGP-IH": "pavebagp", "PaVeBaGP-DE": "pavebagp",
            "PaVeBaPartialGP-rect": "pavebapartial", "PaVeBaPartialGP-ell": "pavebapartial", "VOGP": "vogp",
            "EpsilonPAL": "epal", "VOGP_AD": "vogpad", "Auer": "auer", "NaiveElimination": "naive",
@@ -315,6 +342,8 @@ def crash_key(e, case, exceeds_flag):
     tb = traceback.extract_tb(e.__traceback__)
     frames = [(fr.filename.rsplit("/", 1)[-1], fr.name) for fr in tb]
     name = case["alg"]
+    if isinstance(e, StepTimeout):
+        return f"hang:{name}"
     if exceeds_flag and any(f[1] == "optimize_acqf_discrete" for f in frames) and name in BATCHED:
         return "crash:batch-exceeds-active"
     if (isinstance(e, ValueError) and name in ("PaVeBaGP-IH", "PaVeBaPartialGP-rect")
@@ -514,6 +543,9 @@ def structured_cases():
     out.append({"kind": "real", "alg": "VOGP_AD", "cone": "orthant2", "m": 2, "K": 0, "Y": [], "eps": 0.25,
                 "delta": 0.05, "noise_var": 0.015625, "seed": 4, "extra": 2, "depth_max": 3,
                 "coef": [[1.0, -1.0]], "model": "fixed"})
+    # NaiveElimination, default L, a single design: the union bound over K(K-1) ordered pairs divides by zero
+    out.append({"kind": "real", "alg": "NaiveElimination", "cone": ["theta2", 90], "m": 2, "K": 1, "Y": [[1.0, 2.0]],
+                "eps": 0.5, "delta": 0.05, "noise_var": 0.015625, "seed": 6, "extra": 2, "L": None})
     out.append({"kind": "real", "alg": "NaiveElimination", "cone": "orthant2", "m": 2, "K": 3, "Y": Y2[:3],
                 "eps": 0.25, "delta": 0.05, "noise_var": 0.015625, "seed": 5, "extra": 3, "L": 3})
     out.append({"kind": "real", "alg": "DecoupledGP", "cone": "acute2", "m": 2, "K": 4, "Y": Y2[:4], "eps": 0.25,
@@ -584,7 +616,8 @@ def _run(ctx, case, name, kind):
     pub = {k: v for k, v in case.items() if k != "N"}
     # ---- constructor
     try:
-        alg = construct(case)
+        with time_limit(STEP_SECONDS):
+            alg = construct(case)
     except Exception as e:
         viol(ctx, crash_key(e, case, False) + ":constructor",
                       f"{name} constructor raised {type(e).__name__}: {e}", pub,
@@ -673,11 +706,12 @@ def _run(ctx, case, name, kind):
             orc.ans = {}
         exc = None
         try:
-            if orc is not None:
-                with stubs.patch_geometry(alg, **orc.patches()):
+            with time_limit(STEP_SECONDS):
+                if orc is not None:
+                    with stubs.patch_geometry(alg, **orc.patches()):
+                        done = alg.run_one_step()
+                else:
                     done = alg.run_one_step()
-            else:
-                done = alg.run_one_step()
         except Exception as e:
             exc = e
         # ---- environment of this call, as far as it was observed
@@ -732,8 +766,8 @@ def _run(ctx, case, name, kind):
                       "parent_prev": list(parent[: len(prev["depths"])]) if name == "VOGP_AD" else [],
                       "parent_cur": list(parent) if name == "VOGP_AD" else []})
         total_reqs += reqs
-        if not was_done and cur["round"] != prev["round"]:
-            active_calls += 1
+        if not was_done:
+            active_calls += 1  # calls made while the run had not reported completion (bounded by CAP)
         if bool(done) and finished_at is None:
             finished_at = r
         # whole-run (R): a design that left S never returns
